@@ -57,11 +57,15 @@ def run(ctx):
     scns.append({"id": 53, "n": 40, "prios": 2, "rseed": rnd.randrange(1 << 30), "faults": False, "onetype": True,
                  "createlimitms": 250, "reportbroken": 2, "reportbrokenms": 200, "execms": 60, "stalems": 3000,
                  "deadlinefactor": 100})
+    # the same fault-free run once more at the end: a machine that has become much slower during the
+    # check makes the deadlines meaningless
+    scns.append(dict(scns[0], id=99))
     by_id = {s["id"]: s for s in scns}
     events = _c14().run_e2e(ctx, scns)
     # regression scenarios for KF-C15-1 / KF-C15-2 (both fixed): scripted Executors against the real worker.Pool, no timing
     pkg = "lib/dispatchcloud"
-    rev, rout = ctx.go_run_driver(pkg, ctx.harness_overlay(pkg, "harness/C15_dispatchcloud"), "TestVerifC15Repro$", [], timeout=900)
+    rev, rout = ctx.go_run_driver(pkg, _c14().e2e_overlay(ctx), "TestVerifC15Repro$", [], timeout=900)
+    rev = _c14().drop_infra(ctx, rev, "regression")
     if "VERIF-NOTE" in rout:
         ctx.drift.append("a scripted regression scenario (KF-C15-1/2) could not be applied")
     by_id[9001] = {"id": 9001, "repro": "KF-C15-1: probe reaps a runner whose Start() has not returned yet"}
@@ -72,6 +76,9 @@ def run(ctx):
     calm = [f for f in finals if f.get("calm")]
     if not calm:
         raise vlib.InfraError("the fault-free calibration run did not finish")
+    if len(calm) > 1 and calm[-1]["elapsed_ms"] > 3 * max(calm[0]["elapsed_ms"], 1000):
+        raise vlib.InfraError("machine slowed down during the check: the fault-free run took %d ms at the beginning and %d ms "
+                              "at the end; deadline-based judgement disabled" % (calm[0]["elapsed_ms"], calm[-1]["elapsed_ms"]))
     if calm[0]["elapsed_ms"] > 30000 or calm[0]["timedout"]:
         raise vlib.InfraError("machine too slow: the fault-free run of 30 containers took %d ms; deadline-based "
                               "judgement disabled" % calm[0]["elapsed_ms"])
